@@ -119,91 +119,199 @@ theorem parse_consumes_prefix (hasEx : Bool) (k : Kind) (p rest : List UInt8) :
   rw [hpre, hnil] at this
   simp at this
 
+/-- The header framing the model parses is the generated magic: 16 bytes, the teehistorian UUID. -/
+theorem tie_magic :
+    Gen.Teehistorian.MAGIC_LEN = 16 ∧ magic.length = 16 ∧
+    magic = [0x69, 0x9d, 0xb1, 0x7b, 0x8e, 0xfb, 0x34, 0xff, 0xb1, 0xd8, 0xda, 0x6f, 0x60, 0xc1, 0x5d, 0xd1] := by
+  decide
+
+/-- The source of the header framing, the version dispatch, the refill test and the `file.rs`
+callback are the ones `pHeader`, `Env.cfgOf`, `readMore` and `fileCb`/`OsRead.ev` were written
+against: magic first (`read_raw(MAGIC_LEN)`, compared with `UUID`), then one `read_string`; versions
+1 and 2 only, `EX` for every version but 1; a callback result that `is_some` continues, `None` is
+`UnexpectedEnd`; `File::read` `Ok(0)` is EOF, `Interrupted` is `Some(0)`, other errors are passed on. -/
+theorem tie_header_and_file :
+    Gen.Teehistorian.readMagic =
+      "{ let magic = p.read_raw(MAGIC_LEN)?; if magic != UUID { return Err(WrongMagic.into()); } Ok(()) }" ∧
+    Gen.Teehistorian.readHeaderCalls = ["read_magic", "read_header"] ∧
+    Gen.Teehistorian.headerTextRead = "string" ∧
+    Gen.Teehistorian.fromHeaderArms =
+      [("1", "Reader::empty(format::Version::V1)"), ("2", "Reader::empty(format::Version::V2)"),
+       ("_", "return Err(format::Error::UnknownVersion)")] ∧
+    Gen.Teehistorian.hasExBody = "{ self != Version::V1 }" ∧
+    Gen.Teehistorian.readMoreShape = ["is_some", "Ok(())", "Err(format::Error::UnexpectedEnd.into())"] ∧
+    Gen.Teehistorian.fileReadArms =
+      [("Ok(0)", "Ok(None)"), ("Ok(read)", "Ok(Some(read))"),
+       ("Err(ref e) if e.kind() == io::ErrorKind::Interrupted", "Ok(Some(0))"), ("Err(e)", "Err(e)")] := by
+  decide
+
 /-! ### Independence from the fragmentation -/
 
-/-- **Every read schedule yields the reference output.**  `hdr` is the fixed valid header, `s` the
-stream after it, `ds` the sizes the read callback returns (zero allowed; afterwards it delivers as
-much as fits, then EOF). -/
-theorem run_eq_runWhole (cfg : Cfg) (hdr s : List UInt8) (ds : List Nat) :
-    run cfg hdr.length (hdr ++ s) ds = runWhole cfg s :=
-  Tw.Teehistorian.run_eq_runWhole cfg hdr s ds
+/-- **Every read schedule yields the reference output — header included.**  `total` is *any* byte
+string (the header may be valid, truncated, or carry a wrong magic; its JSON content is judged by
+the parameter `env.json`), `ds` the sizes the read callback returns (zero allowed; afterwards it
+delivers as much as fits, then EOF).  `reference` parses the header framing and the records on the
+complete byte string, without any buffer. -/
+theorem run_eq_reference (env : Env) (total : List UInt8) (ds : List Nat) :
+    run env total ds = reference env total :=
+  runCb_eq_reference env _ (noFail_sizes _ _ _)
+
+/-- **The fragmentation of the header (and of everything after it) does not change the result.** -/
+theorem header_fragmentation_independent (env : Env) (total : List UInt8) (ds₁ ds₂ : List Nat) :
+    run env total ds₁ = run env total ds₂ := by
+  rw [run_eq_reference, run_eq_reference]
+
+/-- The prefix properties of the header framing: a header recognised (or rejected for its magic)
+on a prefix of the file is recognised identically on the whole file, and what it consumed is
+exactly the header. -/
+theorem header_prefix (json : List UInt8 → Except Nat Int) (p q rest : List UInt8) (r : HeaderRes)
+    (h : pHeader json p = .ok r rest) :
+    pHeader json (p ++ q) = .ok r (rest ++ q) ∧ ∃ pre, p = pre ++ rest :=
+  ⟨((good_pHeader json p).1 r rest h).2 q, ((good_pHeader json p).1 r rest h).1⟩
+
+/-- After a complete valid header `hdr` (configuration `cfg`) the output is the reference output of
+the stream `s` that follows, for every read schedule. -/
+theorem run_eq_runWhole (env : Env) (hdr s : List UInt8) (cfg : Cfg) (hh : HeaderOk env hdr cfg)
+    (ds : List Nat) : run env (hdr ++ s) ds = runWhole cfg s :=
+  Tw.Teehistorian.run_eq_runWhole hh s ds
 
 /-- **The item sequence and the final result do not depend on how the stream is split across read
 callbacks.** -/
-theorem fragmentation_independent (cfg : Cfg) (hdr s : List UInt8) (ds₁ ds₂ : List Nat) :
-    run cfg hdr.length (hdr ++ s) ds₁ = run cfg hdr.length (hdr ++ s) ds₂ := by
-  rw [run_eq_runWhole, run_eq_runWhole]
+theorem fragmentation_independent (env : Env) (hdr s : List UInt8) (cfg : Cfg) (hh : HeaderOk env hdr cfg)
+    (ds₁ ds₂ : List Nat) : run env (hdr ++ s) ds₁ = run env (hdr ++ s) ds₂ := by
+  rw [run_eq_runWhole env hdr s cfg hh, run_eq_runWhole env hdr s cfg hh]
 
 /-- **Fragmentations stated explicitly.**  A fragmentation is a list of read results (chunks,
-empty ones allowed) whose concatenation is header + stream, followed by EOF.  `Cb.ofChunks` is the
+empty ones allowed) whose concatenation is the file, followed by EOF.  `Cb.ofChunks` is the
 callback that returns exactly these results (`chunk_read_results`), and any two fragmentations of
-the same stream make the reader produce the same items and the same final result. -/
-theorem chunks_independent (cfg : Cfg) (hdr s : List UInt8) (cs₁ cs₂ : List (List UInt8))
-    (h₁ : cs₁.flatten = hdr ++ s) (h₂ : cs₂.flatten = hdr ++ s) :
-    runCb cfg hdr.length (Cb.ofChunks cs₁) = runCb cfg hdr.length (Cb.ofChunks cs₂) ∧
-    runCb cfg hdr.length (Cb.ofChunks cs₁) = runWhole cfg s := by
-  rw [runCb_eq_runWhole cfg hdr s _ h₁, runCb_eq_runWhole cfg hdr s _ h₂]
-  exact ⟨rfl, rfl⟩
+the same file make the reader produce the same items and the same final result. -/
+theorem chunks_independent (env : Env) (total : List UInt8) (cs₁ cs₂ : List (List UInt8))
+    (h₁ : cs₁.flatten = total) (h₂ : cs₂.flatten = total) :
+    runCb env (Cb.ofChunks cs₁) = runCb env (Cb.ofChunks cs₂) ∧
+    runCb env (Cb.ofChunks cs₁) = reference env total := by
+  have e₁ := runCb_eq_reference env (Cb.ofChunks cs₁) (noFail_ofChunks cs₁)
+  have e₂ := runCb_eq_reference env (Cb.ofChunks cs₂) (noFail_ofChunks cs₂)
+  have r₁ : (Cb.ofChunks cs₁).rem = total := h₁
+  have r₂ : (Cb.ofChunks cs₂).rem = total := h₂
+  rw [r₁] at e₁; rw [r₂] at e₂
+  exact ⟨e₁.trans e₂.symm, e₁⟩
 
 /-- The callback of `chunks_independent` hands out exactly the listed chunks — each one that fits
 into the buffer space it is offered, which the callback contract demands of every read result —
 and then reports EOF. -/
 theorem chunk_read_results (ch : List UInt8) (cs : List (List UInt8)) (space : Nat) :
-    (ch.length ≤ space → (Cb.ofChunks (ch :: cs)).read space = (some ch, Cb.ofChunks cs)) ∧
-    (Cb.ofChunks []).read space = (none, Cb.ofChunks []) :=
+    (ch.length ≤ space → (Cb.ofChunks (ch :: cs)).read space = .data ch (Cb.ofChunks cs)) ∧
+    (Cb.ofChunks []).read space = .eof :=
   ⟨ofChunks_read_fits ch cs space, ofChunks_read_eof space⟩
 
-/-- **The public `Reader` of `file.rs`** (callback = `File::read`; `Ok(0)` is EOF, `Interrupted`
-is passed on as an empty read): whatever the operating system does — short reads of any size,
-interruptions at any point — the output is the reference output. -/
-theorem file_reader_eq_runWhole (cfg : Cfg) (hdr s : List UInt8) (evs : List OsRead) :
-    runFile cfg hdr.length (hdr ++ s) evs = runWhole cfg s :=
-  runCb_eq_runWhole cfg hdr s _ rfl
+/-- **A failing callback** (`Callback::Error`, `Error::Io` in `file.rs`): for every callback —
+any read sizes, failing at any invocation, with or without the `Ok(0)`-is-EOF rule of `file.rs` —
+the output is the reference output, or the final result is the callback's error and the items
+read before it are a prefix of the reference items. -/
+theorem callback_failure_prefix (env : Env) (c : Cb) :
+    runCb env c = reference env c.rem ∨
+    ((runCb env c).final = .cbErr ∧ ¬ c.noFail ∧ (runCb env c).items <+: (reference env c.rem).items) :=
+  runCb_vs_reference env c
 
--- non-vacuity: PLAYER_NEW 2; PLAYER_NEW 3; TICK_SKIP 0; PLAYER_DIFF 2; FINISH behind a 3-byte
--- "header", read byte by byte / with empty reads / in one piece
+/-- **The public `Reader` of `file.rs`** (callback = `File::read`: `Ok(0)` is EOF, `Ok(n)` is
+`Some(n)`, `EINTR` is passed on as an empty read, any other error ends the reading): whatever
+`read(2)` does — short reads of any positive size, interruptions and an I/O error at any point —
+the output is the reference output, or `Error::Io` after a prefix of the reference items. -/
+theorem file_reader (env : Env) (total : List UInt8) (evs : List OsRead) :
+    (OsRead.eio ∉ evs → runFile env total evs = reference env total) ∧
+    (runFile env total evs = reference env total ∨
+      ((runFile env total evs).final = .cbErr ∧
+        (runFile env total evs).items <+: (reference env total).items)) := by
+  refine ⟨fun h => ?_, ?_⟩
+  · refine runCb_eq_reference env (fileCb total evs) ?_
+    simp only [Cb.noFail, fileCb, List.mem_map, not_exists, not_and]
+    intro e he hev
+    cases e with
+    | data n pos => simp [OsRead.ev] at hev
+    | eintr => simp [OsRead.ev] at hev
+    | eio => exact h he
+  · rcases runCb_vs_reference env (fileCb total evs) with h | ⟨h1, _, h3⟩
+    · exact Or.inl h
+    · exact Or.inr ⟨h1, h3⟩
+
+-- non-vacuity: a complete header (magic, `{}`, NUL) that the content parser accepts as version 2
+example : HeaderOk ⟨fun _ => .ok 2, 1000⟩ (magic ++ [0x7b, 0x7d, 0]) ⟨true, 1000⟩ :=
+  ⟨2, by decide +kernel, rfl⟩
+-- PLAYER_NEW 2; PLAYER_NEW 3; TICK_SKIP 0; PLAYER_DIFF 2; FINISH behind that header, read byte by
+-- byte / with empty reads
 example :
-    run ⟨true, 1000⟩ 3 ([9, 9, 9] ++ [0x42, 2, 0, 0, 0x42, 3, 0, 0, 0x41, 0, 2, 1, 1, 0x40]) (List.replicate 17 1) =
+    run ⟨fun _ => .ok 2, 1000⟩ (magic ++ [0x7b, 0x7d, 0] ++ [0x42, 2, 0, 0, 0x42, 3, 0, 0, 0x41, 0, 2, 1, 1, 0x40])
+        (List.replicate 33 1) =
       ⟨[.tickStart 0, .playerNew 2 0 0, .playerNew 3 0 0, .tickEnd 0, .tickStart 1,
         .playerChange 2 1 1 0 0, .tickEnd 1], .finished, 4⟩ := by decide +kernel
 example :
-    run ⟨true, 1000⟩ 3 ([9, 9, 9] ++ [0x42, 2, 0, 0, 0x42, 3, 0, 0, 0x41, 0, 2, 1, 1, 0x40]) [0, 5, 0, 0, 2] =
+    run ⟨fun _ => .ok 2, 1000⟩ (magic ++ [0x7b, 0x7d, 0] ++ [0x42, 2, 0, 0, 0x42, 3, 0, 0, 0x41, 0, 2, 1, 1, 0x40])
+        [0, 5, 0, 0, 2, 17, 1] =
       runWhole ⟨true, 1000⟩ [0x42, 2, 0, 0, 0x42, 3, 0, 0, 0x41, 0, 2, 1, 1, 0x40] := by decide +kernel
+-- header framing: wrong magic after 16 bytes, version 3, header cut before its NUL
+example :
+    (run ⟨fun _ => .ok 2, 1000⟩ (List.replicate 16 7 ++ [0x7b]) [3, 3]).final = .err (.header .wrongMagic) ∧
+    (run ⟨fun _ => .ok 3, 1000⟩ (magic ++ [0x7b, 0x7d, 0, 0x40]) [1, 1]).final = .err .unknownVersion ∧
+    (run ⟨fun _ => .ok 2, 1000⟩ (magic ++ [0x7b, 0x7d]) [4]).final = .err .unexpectedEnd := by decide +kernel
+-- a callback that fails at its fourth invocation: prefix of the items, then the callback error
+example :
+    runCb ⟨fun _ => .ok 2, 1000⟩
+      { rem := magic ++ [0x7b, 0x7d, 0] ++ [0x42, 2, 0, 0, 0x42, 3, 0, 0, 0x40],
+        ds := [.size 19, .size 4, .size 2, .fail] } =
+      ⟨[.tickStart 0, .playerNew 2 0 0], .cbErr, 3⟩ := by decide +kernel
+-- the file reader with an interruption and short reads
+example :
+    runFile ⟨fun _ => .ok 2, 1000⟩ (magic ++ [0x7b, 0x7d, 0] ++ [0x42, 2, 0, 0, 0x40])
+      [.data 1 (by decide), .eintr, .data 30 (by decide), .eintr, .data 100 (by decide)] =
+      ⟨[.tickStart 0, .playerNew 2 0 0, .tickEnd 0], .finished, 3⟩ := by decide +kernel
 
 /-! ### Totality -/
 
-/-- **Any byte stream yields items and then the end, an error, or — only for a client id the
-machine cannot allocate table slots for (finding D18) — resource exhaustion.**  The model has no
-panic outcome left (the arithmetic is checked or wrapping, `offset ≤ len` holds by construction);
-what this theorem adds is that none of the loops runs out of its fuel, for any schedule. -/
-theorem reader_total (cfg : Cfg) (hdr s : List UInt8) (ds : List Nat) :
-    (run cfg hdr.length (hdr ++ s) ds).final = .finished ∨
-    (∃ e, (run cfg hdr.length (hdr ++ s) ds).final = .err e) ∨
-    (run cfg hdr.length (hdr ++ s) ds).final = .oom := by
-  rw [run_eq_runWhole]
-  have := runWhole_final cfg s
-  cases h : (runWhole cfg s).final with
-  | finished => exact Or.inl rfl
-  | err e => exact Or.inr (Or.inl ⟨e, rfl⟩)
-  | oom => exact Or.inr (Or.inr rfl)
-  | outOfFuel => exact absurd h this
+/-- **Any byte string — header included — yields items and then the end, an error, or — only for
+a client id the machine cannot allocate table slots for (finding D18) — resource exhaustion.**
+The model has no panic outcome (the arithmetic is checked or wrapping, `offset ≤ len` holds by
+construction); what this theorem adds is that none of the loops runs out of its fuel, for any
+schedule. -/
+theorem reader_total (env : Env) (total : List UInt8) (ds : List Nat) :
+    (run env total ds).final = .finished ∨
+    (∃ e, (run env total ds).final = .err e) ∨
+    (run env total ds).final = .oom := by
+  rw [run_eq_reference]
+  unfold reference
+  cases pHeader env.json total with
+  | needMore => exact Or.inr (Or.inl ⟨_, rfl⟩)
+  | err e => exact Or.inr (Or.inl ⟨_, rfl⟩)
+  | ok r rest =>
+    cases r with
+    | bad e => exact Or.inr (Or.inl ⟨_, rfl⟩)
+    | version v =>
+      simp only
+      cases env.cfgOf v with
+      | none => exact Or.inr (Or.inl ⟨_, rfl⟩)
+      | some cfg =>
+        simp only
+        have := runWhole_final cfg rest
+        cases h : (runWhole cfg rest).final with
+        | finished => exact Or.inl rfl
+        | err e => exact Or.inr (Or.inl ⟨e, rfl⟩)
+        | oom => exact Or.inr (Or.inr rfl)
+        | cbErr => exact absurd h (runWhole_not_cbErr cfg rest)
+        | outOfFuel => exact absurd h this
 
 /-- The full totality statement: items, then the end or an error — nothing else. -/
 def C17_full : Prop :=
-  ∀ (cfg : Cfg) (hdr s : List UInt8) (ds : List Nat),
-    (run cfg hdr.length (hdr ++ s) ds).final = .finished ∨
-    ∃ e, (run cfg hdr.length (hdr ++ s) ds).final = .err e
+  ∀ (env : Env) (total : List UInt8) (ds : List Nat),
+    (run env total ds).final = .finished ∨ ∃ e, (run env total ds).final = .err e
 
 /-- Totality for streams whose `PLAYER_NEW`/`INPUT_NEW` records stay below the number of table
 slots the machine can allocate (the excluding hypothesis of finding D18). -/
-theorem reader_total_partial (cfg : Cfg) (hdr s : List UInt8) (ds : List Nat)
-    (hc : CidsBelow cfg.memCids (parseAll cfg.hasEx (s.length + 1) s).1) :
-    (run cfg hdr.length (hdr ++ s) ds).final = .finished ∨
-    ∃ e, (run cfg hdr.length (hdr ++ s) ds).final = .err e := by
-  rcases reader_total cfg hdr s ds with h | h | h
+theorem reader_total_partial (env : Env) (hdr s : List UInt8) (cfg : Cfg) (hh : HeaderOk env hdr cfg)
+    (ds : List Nat) (hc : CidsBelow cfg.memCids (parseAll cfg.hasEx (s.length + 1) s).1) :
+    (run env (hdr ++ s) ds).final = .finished ∨ ∃ e, (run env (hdr ++ s) ds).final = .err e := by
+  rcases reader_total env (hdr ++ s) ds with h | h | h
   · exact Or.inl h
   · exact Or.inr h
-  · rw [run_eq_runWhole] at h
+  · rw [run_eq_runWhole env hdr s cfg hh] at h
     exact absurd h (interp_no_oom cfg _ _ _ hc)
 
 -- non-vacuity: the hypothesis is decidable and holds for an ordinary stream
@@ -214,19 +322,20 @@ example : CidsBelow 1000 (parseAll true 15 [0x42, 2, 0, 0, 0x42, 3, 0, 0, 0x41, 
 slots ends in resource exhaustion, so `C17_full` does not hold. -/
 theorem reader_total_witness : ¬ C17_full := by
   intro h
-  have hw : (run ⟨true, 1000⟩ ([] : List UInt8).length ([] ++ [0x42, 0xa8, 0x0f, 0, 0]) []).final = .oom := by
+  have hw : (run ⟨fun _ => .ok 2, 1000⟩ (magic ++ [0x7b, 0x7d, 0] ++ [0x42, 0xa8, 0x0f, 0, 0]) []).final = .oom := by
     decide +kernel
-  rcases h ⟨true, 1000⟩ [] [0x42, 0xa8, 0x0f, 0, 0] [] with h | ⟨e, h⟩ <;> rw [hw] at h <;> simp at h
+  rcases h ⟨fun _ => .ok 2, 1000⟩ (magic ++ [0x7b, 0x7d, 0] ++ [0x42, 0xa8, 0x0f, 0, 0]) [] with h | ⟨e, h⟩ <;>
+    rw [hw] at h <;> simp at h
 
 /-! ### Tick structure -/
 
 /-- **Tick boundaries are properly nested start/end pairs with strictly increasing numbers**, every
 other item lies inside a tick, and a stream that ends with `FINISH` leaves no tick open — under
 every fragmentation. -/
-theorem tick_structure (cfg : Cfg) (hdr s : List UInt8) (ds : List Nat) :
-    ∃ st, tickRun ⟨none, -1⟩ (run cfg hdr.length (hdr ++ s) ds).items = some st ∧
-      ((run cfg hdr.length (hdr ++ s) ds).final = .finished → st.cur = none) := by
-  rw [run_eq_runWhole]
+theorem tick_structure (env : Env) (hdr s : List UInt8) (cfg : Cfg) (hh : HeaderOk env hdr cfg) (ds : List Nat) :
+    ∃ st, tickRun ⟨none, -1⟩ (run env (hdr ++ s) ds).items = some st ∧
+      ((run env (hdr ++ s) ds).final = .finished → st.cur = none) := by
+  rw [run_eq_runWhole env hdr s cfg hh]
   have hwf := (parseAll_wf cfg.hasEx (s.length + 1) s (by omega)).1
   have hI : InvT Reader.empty ⟨none, -1⟩ := by simp [InvT, Reader.empty]
   obtain ⟨st, h1, h2, _, _⟩ := interp_ticks cfg _ (parseAll cfg.hasEx (s.length + 1) s).2 Reader.empty _ hwf hI
@@ -235,13 +344,13 @@ theorem tick_structure (cfg : Cfg) (hdr s : List UInt8) (ds : List Nat) :
 /-- **The tick numbers equal the numbers the format documentation assigns**: the tick every
 reported item lies in is the tick `doc/teehistorian.md`'s pseudo-code computes for its message
 (all of them when the stream ends with `FINISH`, a prefix when reading stops at an error). -/
-theorem ticks_equal_doc (cfg : Cfg) (hdr s : List UInt8) (ds : List Nat) :
-    (itemTicks none (run cfg hdr.length (hdr ++ s) ds).items <+:
+theorem ticks_equal_doc (env : Env) (hdr s : List UInt8) (cfg : Cfg) (hh : HeaderOk env hdr cfg) (ds : List Nat) :
+    (itemTicks none (run env (hdr ++ s) ds).items <+:
       (docItemTicks 0 none ((messages cfg.hasEx s).map msgKind)).map some) ∧
-    ((run cfg hdr.length (hdr ++ s) ds).final = .finished →
-      itemTicks none (run cfg hdr.length (hdr ++ s) ds).items =
+    ((run env (hdr ++ s) ds).final = .finished →
+      itemTicks none (run env (hdr ++ s) ds).items =
         (docItemTicks 0 none ((messages cfg.hasEx s).map msgKind)).map some) := by
-  rw [run_eq_runWhole]
+  rw [run_eq_runWhole env hdr s cfg hh]
   have hwf := (parseAll_wf cfg.hasEx (s.length + 1) s (by omega)).1
   have hI : InvT Reader.empty ⟨none, -1⟩ := by simp [InvT, Reader.empty]
   obtain ⟨st, _, _, h3, h4⟩ := interp_ticks cfg _ (parseAll cfg.hasEx (s.length + 1) s).2 Reader.empty _ hwf hI
@@ -253,13 +362,13 @@ theorem ticks_equal_doc (cfg : Cfg) (hdr s : List UInt8) (ds : List Nat) :
 /-- **Player positions and inputs equal the running sums of the recorded differences**: every
 reported item is the one computed from exact integer sums, reduced modulo 2^32 only when
 reported (`expectedItems`); in particular `PlayerChange.old_pos`/`pos` and `Input.input`. -/
-theorem sums_equal_doc (cfg : Cfg) (hdr s : List UInt8) (ds : List Nat) :
-    ((reported (run cfg hdr.length (hdr ++ s) ds).items).map some <+:
+theorem sums_equal_doc (env : Env) (hdr s : List UInt8) (cfg : Cfg) (hh : HeaderOk env hdr cfg) (ds : List Nat) :
+    ((reported (run env (hdr ++ s) ds).items).map some <+:
       expectedItems Sums.empty (messages cfg.hasEx s)) ∧
-    ((run cfg hdr.length (hdr ++ s) ds).final = .finished →
-      (reported (run cfg hdr.length (hdr ++ s) ds).items).map some =
+    ((run env (hdr ++ s) ds).final = .finished →
+      (reported (run env (hdr ++ s) ds).items).map some =
         expectedItems Sums.empty (messages cfg.hasEx s)) := by
-  rw [run_eq_runWhole]
+  rw [run_eq_runWhole env hdr s cfg hh]
   have hwf := (parseAll_wf cfg.hasEx (s.length + 1) s (by omega)).1
   have hrg := parseAll_range cfg.hasEx (s.length + 1) s
   have hI : InvS Reader.empty Sums.empty := by
@@ -281,13 +390,10 @@ example :
       [0x42, 0, 0xbf, 0xff, 0xff, 0xff, 0x0f, 0xff, 0xff, 0xff, 0xff, 0x0f, 0, 1, 0x40, 0x40]).items =
       [.playerNew 0 2147483647 (-2147483648), .playerChange 0 (-2147483648) 2147483647 2147483647 (-2147483648)] := by
   decide +kernel
-
--- explicit chunks with empty ones, and the file reader with an interruption and short reads
+-- explicit chunks with empty ones
 example :
-    runCb ⟨true, 1000⟩ 3 (Cb.ofChunks [[9], [], [9, 9, 0x42], [2, 0], [], [0, 0x40]]) =
-      ⟨[.tickStart 0, .playerNew 2 0 0, .tickEnd 0], .finished, 3⟩ := by decide +kernel
-example :
-    runFile ⟨true, 1000⟩ 3 [9, 9, 9, 0x42, 2, 0, 0, 0x40] [.data 1, .interrupted, .data 0, .interrupted, .data 100] =
+    runCb ⟨fun _ => .ok 2, 1000⟩
+      (Cb.ofChunks [magic, [], [0x7b, 0x7d], [0, 0x42], [2, 0], [], [0, 0x40]]) =
       ⟨[.tickStart 0, .playerNew 2 0 0, .tickEnd 0], .finished, 3⟩ := by decide +kernel
 
 end Tw.Props.C17
